@@ -2,6 +2,7 @@ package wire
 
 import (
 	"bytes"
+	"errors"
 	"fmt"
 	"io"
 
@@ -201,7 +202,8 @@ func checkCtrlReturn(r *eng.Run, what string, e ctrlExp, err error) {
 			r.Failf("wrong_return", "%s: returned %v, expected nil", what, err)
 		}
 	case e.retClosed:
-		ce, ok := err.(wsutil.ClosedError)
+		var ce wsutil.ClosedError
+		ok := errors.As(err, &ce)
 		if !ok {
 			r.Failf("wrong_return", "%s: returned %T %v, expected wsutil.ClosedError{%d}", what, err, err, e.code)
 		}
@@ -209,7 +211,8 @@ func checkCtrlReturn(r *eng.Run, what string, e ctrlExp, err error) {
 			r.Failf("wrong_return", "%s: returned ClosedError{%d,%q}, expected {%d,%q}", what, ce.Code, ce.Reason, e.code, e.reason)
 		}
 	case e.retProto:
-		if _, ok := err.(ws.ProtocolError); !ok {
+		var pe ws.ProtocolError
+		if !errors.As(err, &pe) {
 			r.Failf("wrong_return", "%s: returned %T %v, expected a ws.ProtocolError", what, err, err)
 		}
 	}
